@@ -5,6 +5,7 @@ import (
 	"reflect"
 
 	"github.com/trustbloc/sidetree-go/pkg/api/protocol"
+	"github.com/trustbloc/sidetree-go/pkg/docutil"
 	"github.com/trustbloc/sidetree-go/pkg/vdr/sidetreelongform/dochandler"
 	"github.com/trustbloc/sidetree-go/pkg/versions/1_0/doctransformer/didtransformer"
 	"github.com/trustbloc/sidetree-go/pkg/versions/1_0/doctransformer/doctransformer"
@@ -15,6 +16,7 @@ import (
 func init() {
 	register("transform", transformKind)
 	register("gtransform", gtransformKind)
+	register("tinfo", tinfoKind)
 	register("resolve", resolveKind)
 	register("process", processKind)
 }
@@ -217,4 +219,23 @@ func processKind(c *proto.Case) interface{} {
 		out["resolve_again"] = resultJSON(again)
 	}
 	return out
+}
+
+// tinfoKind: C18 / C17 — docutil.GetTransformationInfoForPublished / ForUnpublished.
+func tinfoKind(c *proto.Case) interface{} {
+	var ti protocol.TransformationInfo
+	if b, _ := c.Body["published"].(bool); b {
+		var er []string
+		if l, ok := c.Body["er"].([]interface{}); ok {
+			for _, e := range l {
+				s, _ := e.(string)
+				er = append(er, s)
+			}
+		}
+		ti = docutil.GetTransformationInfoForPublished(c.Str("ns"), c.Str("id"), c.Str("suffix"),
+			&protocol.ResolutionModel{CanonicalReference: c.Str("cr"), EquivalentReferences: er})
+	} else {
+		ti = docutil.GetTransformationInfoForUnpublished(c.Str("ns"), c.Str("domain"), c.Str("label"), c.Str("suffix"), c.Str("jcs"))
+	}
+	return M{"info": jsonRound(map[string]interface{}(ti))}
 }
